@@ -32,6 +32,8 @@ def check(run):
     shared_rule(run, _disc, (run, p), 'C07-DISCOVERY', 'C08-DISCOVERY', ' (the database discoverer is this base class with SQL statistics)')
     shared_rule(run, _loop, (run, p), 'C01-LOOP', 'C08-LOOP', ' (a table verifies against the constraints discovered from it)')
     shared_rule(run, _strip, (run, p), 'C09-STRIP', 'C08-STRIP', ' (constraints discovered from a table are written through to_json before they are verified)')
+    from .c02 import verdicts as _verdicts, kinds_and_methods as _km2
+    shared_rule(run, _verdicts, (run, p, _km2(p)), 'C02-VERDICT', 'C08-VERDICT', ' (a table is judged by these base verifiers, fed with SQL statistics; date bounds always take the closed comparison)')
     from .common import zero_rule
     n = zero_rule(run, 'C08-ZERO', p, list(sh.methods.values()), {'execute_scalar', 'agg', 'min', 'max', 'len', 'sum'},
                   'zero is a statistic: in the SQL handler a value obtained from execute_scalar() or an aggregate (a minimum length of 0, '
